@@ -26,6 +26,9 @@ pub enum Case {
     Torsion { c: u8, a: Vec<u8>, r: Vec<u8>, ta: u8, tr: u8, smod: u8, msg: Msg },
     /// low-order public key: R = S*B + T_tr is valid for every message, S chosen freely
     LowOrder { c: u8, ta: u8, tr: u8, s: Vec<u8>, msg: Msg },
+    /// non-canonical encodings of points with x = 0 or small y: as public key (with R = S*B) and as R (with a low-order key and S = 0):
+    /// a lenient decoder would make the cofactored equation hold; the strict predicate rejects
+    NonCanon { c: u8, which: u8, form: u8, s: Vec<u8>, msg: Msg },
     /// arbitrary bytes
     Raw { c: u8, pk: Vec<u8>, sig: Vec<u8>, msg: Msg },
 }
@@ -199,6 +202,49 @@ fn check(case: &Case) -> Outcome {
             acc.tag("low_order_public_key");
             compare(&mut acc, name, *c, &pk, &sig, msg);
         }
+        Case::NonCanon { c, which, form, s, msg } => {
+            let name = if *c == 0 { "ed25519" } else { "ed448" };
+            let sch = &schemes()[*c as usize];
+            let cv = &sch.curve;
+            let l = sch.key_len();
+            let p = &cv.p;
+            // candidate non-canonical strings: (y = 1, sign 1), (y = p - 1, sign 1), y + p for y in 0..19 with either sign
+            let mut forms: Vec<Vec<u8>> = Vec::new();
+            for (y, sign) in [(BigUint::from(1u32), true), (p - 1u32, true)] {
+                let mut e = pf::to_le(&y, l);
+                if sign { e[l - 1] |= 0x80; }
+                forms.push(e);
+            }
+            for y in 0u32..19 {
+                let yp = BigUint::from(y) + p;
+                if yp.bits() as usize <= 8 * l - 1 {
+                    for sign in [0u8, 0x80] {
+                        let mut e = pf::to_le(&yp, l);
+                        e[l - 1] |= sign;
+                        forms.push(e);
+                    }
+                }
+            }
+            let bad = forms[*form as usize % forms.len()].clone();
+            let t = &refs().torsion[*c as usize];
+            let mut sb = s.clone();
+            sb.resize(l, 0);
+            let si = pf::from_le(&sb) % &cv.order;
+            let (pk, sig) = if which % 2 == 0 {
+                // non-canonical public key, R = S*B: valid for a decoder that maps the string to a low-order point
+                let mut sig = cv.encode(&cv.mul(&si, &cv.base()));
+                sig.extend(pf::to_le(&si, l));
+                (bad, sig)
+            } else {
+                // low-order (canonical) key, non-canonical R, S = 0
+                let pk = cv.encode(&t[(*form as usize / 7) % t.len()]);
+                let mut sig = bad;
+                sig.extend(vec![0u8; l]);
+                (pk, sig)
+            };
+            acc.tag("noncanonical_A_or_R");
+            compare(&mut acc, name, *c, &pk, &sig, msg);
+        }
         Case::Raw { c, pk, sig, msg } => {
             let name = if *c == 0 { "ed25519" } else { "ed448" };
             compare(&mut acc, name, *c, pk, sig, msg);
@@ -221,6 +267,7 @@ impl C07 {
             classes.push((cls(leak(format!("{n}/torsion")), 400, 40_000), c, 2));
             classes.push((cls(leak(format!("{n}/low_order_key")), 300, 30_000), c, 3));
             classes.push((cls(leak(format!("{n}/raw_bytes")), 300, 30_000), c, 4));
+            classes.push((cls(leak(format!("{n}/noncanonical_encodings")), 300, 30_000), c, 5));
         }
         C07 { classes }
     }
@@ -276,6 +323,7 @@ impl Property for C07 {
                 .prop_map(move |(a, r, ta, tr, smod, msg)| Case::Torsion { c, a: a.to_bytes_le(), r: r.to_bytes_le(), ta, tr, smod, msg })
                 .boxed(),
             3 => (any::<u8>(), any::<u8>(), s_strategy(c), msg_strategy()).prop_map(move |(ta, tr, s, msg)| Case::LowOrder { c, ta, tr, s, msg }).boxed(),
+            5 => (any::<u8>(), any::<u8>(), s_strategy(c), msg_strategy()).prop_map(move |(which, form, s, msg)| Case::NonCanon { c, which, form, s, msg }).boxed(),
             _ => (
                 prop_oneof![3 => prop::collection::vec(any::<u8>(), l), 1 => prop::collection::vec(any::<u8>(), 0..70)],
                 prop_oneof![3 => prop::collection::vec(any::<u8>(), 2 * l), 1 => prop::collection::vec(any::<u8>(), 0..130), 1 => prop::sample::select(vec![0usize, 63, 64, 65, 113, 114, 115]).prop_flat_map(|n| prop::collection::vec(any::<u8>(), n))],
